@@ -123,7 +123,12 @@ impl std::fmt::Display for SimplePolynomial {
                 match f.precision() {
                     Some(p) => {
                         let formatted = format!("{:.*}", p, abs_coeff);
-                        let trimmed = formatted.trim_end_matches('0').trim_end_matches('.');
+                        // Only zeros of the fractional part are redundant
+                        let trimmed = if formatted.contains('.') {
+                            formatted.trim_end_matches('0').trim_end_matches('.')
+                        } else {
+                            &formatted
+                        };
                         write!(f, "{}", trimmed)?;
                     }
                     None => write!(f, "{}", abs_coeff)?,
